@@ -1,5 +1,7 @@
 package rtmp
 
+import "github.com/q191201771/lal/pkg/base"
+
 // ZzSetWChanSize sets the size of the server session's asynchronous write queue (overlay-added export
 // shim: a tuning knob the simulation randomises) and returns the previous value.
 func ZzSetWChanSize(n int) int {
@@ -7,3 +9,11 @@ func ZzSetWChanSize(n int) int {
 	wChanSize = n
 	return old
 }
+
+// ZzMessage2Chunks exposes the chunk serialiser with an explicit chunk size and previous header.
+func ZzMessage2Chunks(message []byte, header *base.RtmpHeader, prev *base.RtmpHeader, chunkSize int) []byte {
+	return message2Chunks(message, header, prev, chunkSize)
+}
+
+// ZzStreamToMsg exposes the message a ChunkComposer callback receives (the payload is only valid during the callback).
+func ZzStreamToMsg(s *Stream) base.RtmpMsg { return s.toAvMsg() }
